@@ -78,6 +78,9 @@ def make_grid(spec):
         g = pp.StructuredTriangleGrid(np.array(spec["n"]))
     elif kind == "tet":
         g = pp.StructuredTetrahedralGrid(np.array(spec["n"]))
+    elif kind == "tetd":
+        # small Delaunay tetrahedral grid from a few dyadic points (2-4 cells, 7-12 faces)
+        g = pp.TetrahedralGrid(np.array(spec["pts"], dtype=float).T)
     else:
         raise ValueError(kind)
     if spec.get("pert"):
@@ -112,9 +115,17 @@ def grid_spec(rng, tier, force=None):
         spec = {"kind": "tri", "n": rng.choice([[1, 1], [2, 1], [1, 2], [2, 1], [1, 2], [3, 1], [2, 2]])}
         dim = 2
     else:
-        spec = {"kind": "tet", "n": [1, 1, 1]}
+        # 3-D: small Delaunay grids; the structured 6-cell / 18-face grid only now and then in the
+        # thorough tier (cost of the exact elimination inside Coq)
+        if tier != "quick" and rng.random() < 0.25:
+            spec = {"kind": "tet", "n": [1, 1, 1]}
+        else:
+            spec = {"kind": "tetd", "pts": rng.choice([
+                [[0, 0, 0], [1, 0, 0], [0, 1, 0], [0, 0, 1], [1, 1, 1.5]],
+                [[0, 0, 0], [1, 0, 0], [0, 1, 0], [0, 0, 1], [1, 1, 1.5], [-0.5, 0.25, 1.25]],
+                [[0, 0, 0], [2, 0, 0], [0, 1, 0], [0, 0, 1.5], [1, 1, 1], [0.5, 0.25, -1]]])}
         dim = 3
-    if dim > 1 and rng.random() < 0.5:
+    if dim > 1 and spec["kind"] != "tetd" and rng.random() < 0.5:
         g = make_grid(spec)
         amp = 5 if dim == 2 else 3
         spec["pert"] = [[rng.randint(-amp, amp) for _ in range(g.num_nodes)] for _ in range(dim)]
@@ -170,7 +181,7 @@ class C18(Prop):
     props_file = "Props/C18.v"
     preamble = ("From Coq Require Import List ZArith Bool QArith.\nImport ListNotations.\n"
                 "From PP Require Import Lib.RowLin Model.C18.\nLocal Open Scope Q_scope.\n")
-    n_cases = (12, 80)
+    n_cases = (12, 48)
     design_ref = "DESIGN.md §5 C18 (certificate tie K, level P-method)"
     level_text = (
         "METHOD-LEVEL Coq theorems plus per-instance certificate validation (translation "
@@ -207,7 +218,7 @@ class C18(Prop):
         "are checked on generated instances only); in 1-D the model is tied to pp.RT0 by execution "
         "on the generated x-aligned grids only (rotated 1-D grids and MVEM go through the "
         "certificates, not the model); the local factorisation is checked for RT0 only (MVEM local "
-        "matrices are not captured) and relates the float A_loc to the exact B^T W B only up to the "
+        "matrices are not captured), on the first and last cell of each grid (one cell in 3-D), and relates the float A_loc to the exact B^T W B only up to the "
         "tolerance; non-singularity is certified only where the exact inverse is cheap (system size "
         "<= 14), elsewhere it remains a hypothesis observed by the oracle's solve; float rounding. "
         "Sizes are bounded (<= 18 faces) by the cost of exact rational elimination inside Coq. "
@@ -221,7 +232,7 @@ class C18(Prop):
                  "definiteness, linearity over Q) + certificate checkers evaluated by vm_compute on the "
                  "real matrices (exact rational elimination inside Coq) + numpy oracle")
     rule = ("grids: 1-D TensorGrid (1-6 cells, uneven dyadic spacing), StructuredTriangleGrid, "
-            "StructuredTetrahedralGrid (at most 18 faces: cost of the exact elimination), half of the 2-D/3-D grids with dyadic node offsets, 45% of the "
+            "small Delaunay TetrahedralGrids and StructuredTetrahedralGrid (at most 18 faces: cost of the exact elimination), half of the 2-D/3-D grids with dyadic node offsets, 45% of the "
             "1-D/2-D grids rotated out of their coordinate plane (axis with rational direction); RT0 "
             "and MVEM alternate; constant permeability: directed streams give 3-D grids a FULL tensor (all "
             "off-diagonals non-zero, kyy != kzz) and tilted embedded grids a transversely isotropic tensor "
@@ -242,7 +253,8 @@ class C18(Prop):
         for i in range(n):
             # directed streams: i % 6 in (0, 3): 3-D grid with a full tensor (RT0 / MVEM);
             # i % 6 in (1, 4): tilted embedded grid with a transversely isotropic tensor (MVEM / RT0)
-            spec, dim = grid_spec(rng, tier, force={0: "tet", 3: "tet", 1: "embedded", 4: "embedded"}.get(i % 6))
+            streams = {0: "tet", 3: "tet", 1: "embedded", 4: "embedded"}
+            spec, dim = grid_spec(rng, tier, force=streams.get(i % 6))
             planar = not spec.get("rot")
             stream = i % 6
             k = {"kxx": rng.choice([0.5, 1.0, 2.0, 1.5])}
@@ -309,9 +321,11 @@ class C18(Prop):
         A0, bs, mass = None, [], None
         with _CaptureLocal() as cap:
             data = self._discretize(g, perm, bc, discr)
-        locals_ = [local_factors(c) for c in cap.calls] if case["method"] == "rt0" else []
-        if case["method"] == "rt0" and len(locals_) != nc:
+        if case["method"] == "rt0" and len(cap.calls) != nc:
             raise RuntimeError("RT0.discretize did not call massHdiv once per cell")
+        # the factorisation certificate is evaluated on the first and the last cell (cost)
+        picked = sorted({0, nc - 1}) if g.dim < 3 else [nc - 1]
+        locals_ = [local_factors(cap.calls[c]) for c in picked] if case["method"] == "rt0" else []
         for pf in basis:
             A, b = self._assemble(g, data, bf, discr, pf)
             if A0 is None:
@@ -373,6 +387,8 @@ class C18(Prop):
 
     def run_impl(self, case):
         full = self._run_full(case)
+        if len(self._cache) > 400:      # bounded (the driver's search loop may run thousands of cases)
+            self._cache.clear()
         self._cache[json.dumps(case, sort_keys=True)] = full
         blob = json.dumps(full, sort_keys=True).encode()
         return {"nf": full["nf"], "nc": full["nc"], "dim": full["dim"],
